@@ -5,9 +5,15 @@ _process_request and _handle_task_completion (the done-callback is followed).  E
 three functions is walked symbolically with locals substituted away and private helpers read into
 their call sites (sa/props/_c14_util.py), so the rules talk about *roles*:
 
-  key        frozenset(<loop variable>.component_ids) in _run; the 1st parameter of the two callees
-  request    the loop variable of `async for ... in self._requests_receiver`; the 2nd parameter
-  task       the value of the one `...create_task(...)` call of _process_request
+  key        frozenset(<loop variable>.component_ids) in _run; in the two callees the parameter that is
+             used as the key of the two maps
+  request    the loop variable of `async for ... in self._requests_receiver`; the starter's parameter that
+             is handed to distribute_power, the handler's remaining one
+  task       the value of the one `...create_task(...)` call of _process_request; the handler's parameter
+             whose `.result()` is asked for
+             (parameters are bound by what the body does with them -- Ctx.roles -- and calls are read
+             through the signature, so order, names and positional / keyword spelling do not matter; the
+             historical order key, request, task only settles what the uses leave open)
   in flight  membership of the key in self._processing_tasks
   pending    membership of the key in self._pending_requests
 
@@ -25,8 +31,8 @@ from ..engine.report import AnalysisError, Run
 from ..engine.resolver import FuncInfo, Program, contains_await, walk_no_nested
 from ..engine.sympath import Effect, Path, SymUnsupported
 from ..engine.util import u
-from ._c14_util import (HelperGraph, Walk, callback_target, closure_reads, effect_target, rebound_after, seg,
-                        splice)
+from ._c14_util import (HelperGraph, Signature, Walk, assign_roles, callback_target, closure_reads, effect_target,
+                        param_uses, rebound_after, seg, splice)
 
 MOD = "microgrid._power_distributing.power_distributing"
 ACTOR = f"{MOD}:PowerDistributingActor"
@@ -75,18 +81,6 @@ def _decision(p: Path, coll: str, attr: str, k: str, popping: bool = False) -> t
         elif present is None:
             present = outcome == m
     return present, odd
-
-
-def _bound(call: ast.AST, params: list[str]) -> dict[str, str] | None:
-    """Arguments of a call by parameter name (positional / keyword spellings coincide); None when
-    the call does not bind exactly these parameters."""
-    if not isinstance(call, ast.Call) or any(isinstance(a, ast.Starred) for a in call.args) \
-            or any(k.arg is None for k in call.keywords) or len(call.args) > len(params):
-        return None
-    a = positional(call, params)
-    if len(a) != len(call.args) + len(call.keywords) or set(a) - set(params):
-        return None
-    return {k: u(v) for k, v in a.items()}
 
 
 def _is_self_call(c: ast.AST, attr: str) -> bool:
@@ -195,10 +189,14 @@ def bind_roles(prog: Program) -> tuple[str, str]:
     return starter, handler
 
 
-def _callback_ok(cb: ast.AST, nested: dict[str, ast.FunctionDef], handler: str, hp: list[str],
+FINISHED = "<the finished task>"
+
+
+def _callback_ok(cb: ast.AST, nested: dict[str, ast.FunctionDef], handler: str, hsig: Signature, hr: dict[str, str],
                  key: str, req: str, where: str) -> bool:
     """The callable `cb` (as the walker sees it: locals substituted, default arguments folded into the
-    body) calls <handler>(key, request, <the finished task>)."""
+    body) calls <handler> with its key parameter bound to `key`, its request parameter to `req` and its
+    task parameter to the finished task the event loop passes in (`hr`: role -> parameter of the handler)."""
     if isinstance(cb, ast.Lambda):
         la = cb.args
         if len(la.args) + len(la.posonlyargs) != 1 or la.vararg or la.kwarg or la.kwonlyargs:
@@ -216,8 +214,10 @@ def _callback_ok(cb: ast.AST, nested: dict[str, ast.FunctionDef], handler: str, 
         body = stmts[0].value
     elif isinstance(cb, ast.Call) and u(cb.func).split(".")[-1] == "partial" and cb.args \
             and u(cb.args[0]) == f"self.{handler}":
-        a = _bound(ast.Call(func=cb.args[0], args=cb.args[1:], keywords=cb.keywords), hp)
-        return a == {hp[0]: key, hp[1]: req}
+        # partial(f, *a, **kw)(t) == f(*a, t, **kw)
+        a = hsig.bind(ast.Call(func=cb.args[0], args=cb.args[1:] + [ast.Name(id=FINISHED, ctx=ast.Load())],
+                               keywords=cb.keywords))
+        return a == {hr["key"]: key, hr["request"]: req, hr["task"]: FINISHED}
     elif isinstance(cb, (ast.Name, ast.Call)):
         # a callable built somewhere the walker could not read (a multi-statement closure, an
         # unknown factory): nothing can be said about it
@@ -226,7 +226,7 @@ def _callback_ok(cb: ast.AST, nested: dict[str, ast.FunctionDef], handler: str, 
         return False
     if body is None or not _is_self_call(body, handler):
         return False
-    return _bound(body, hp) == {hp[0]: key, hp[1]: req, hp[2]: tpar}
+    return hsig.bind(body) == {hr["key"]: key, hr["request"]: req, hr["task"]: tpar}
 
 
 def _done_callbacks(p: Path) -> list[Effect]:
@@ -247,16 +247,15 @@ def check_attach(fn: FuncInfo, w: Walk, paths: list[Path], ctx: "Ctx", prog: Pro
     every start in the caller must be followed, on the same path, by exactly one
     `<that task>.add_done_callback(<handler>(<the started key>, <the started request>, finished task))`;
     when the starter attaches the callback itself, a caller must not attach another one."""
-    handler = prog.func(f"{ACTOR}.{ctx.handler}")
-    proc = prog.func(f"{ACTOR}.{ctx.starter}")
-    hp, pp = handler.params[1:4], proc.params[1:3]
+    hsig, hr = ctx.roles(ctx.handler)
+    ssig, sr = ctx.roles(ctx.starter)
     nested = {n.name: n for n in ast.walk(w.tree) if isinstance(n, ast.FunctionDef) and n is not w.tree}
     for p in paths:
         order = {id(e): i for i, e in enumerate(p.effects)}
         cbs = _done_callbacks(p)
         for st in p.calls(lambda c: _is_self_call(c, ctx.starter)):
-            a = _bound(st.node, pp)
-            slot = f"{PROC}[{a[pp[0]]}]" if a is not None and pp[0] in a else None
+            a = ssig.bind(st.node)
+            slot = f"{PROC}[{a[sr['key']]}]" if a is not None and sr["key"] in a else None
             mine = [e for e in cbs if order[id(e)] > order[id(st)] and (
                 u(e.node.func.value) == u(st.node) or (slot is not None and u(e.node.func.value) == slot))]  # type: ignore[attr-defined]
             if not ctx.deferred:
@@ -268,8 +267,8 @@ def check_attach(fn: FuncInfo, w: Walk, paths: list[Path], ctx: "Ctx", prog: Pro
                                        f"{u(st.node)[:80]}"))
                 continue
             arg = _cb_arg(mine[0].node)
-            if a is None or set(a) != set(pp) or arg is None \
-                    or not _callback_ok(arg, nested, ctx.handler, hp, a[pp[0]], a[pp[1]], fn.qual):
+            if a is None or set(a) != set(sr.values()) or arg is None \
+                    or not _callback_ok(arg, nested, ctx.handler, hsig, hr, a[sr["key"]], a[sr["request"]], fn.qual):
                 bad["cbarg_site"].append((p, mine[0].node))
 
 
@@ -297,13 +296,35 @@ class Ctx:
         self.read_in: set[str] = set()      # helpers spliced / followed into the anchored functions
         self.starter, self.handler = bind_roles(prog)
         self.anchors: tuple[str, ...] = ("_run", self.handler, self.starter)
+        self.prog = prog
+        self._walks: dict[str, Walk] = {}
+        self._roles: dict[str, tuple[Signature, dict[str, str]]] = {}
+
+    def walk(self, fn: FuncInfo) -> Walk:
+        if fn.qual not in self._walks:
+            w = Walk(self.prog, fn, anchors=self.anchors)
+            self.unfollowed |= w.ex.unfollowed
+            self.read_in |= w.spliced | w.ex.followed
+            self._walks[fn.qual] = w
+        return self._walks[fn.qual]
+
+    def roles(self, method: str) -> tuple[Signature, dict[str, str]]:
+        """(signature, role -> parameter) of the starter (key, request) / the handler (key, request, task):
+        a parameter plays the role its uses on the walked paths show -- key of the two maps, handed to
+        distribute_power, asked for its result -- whatever its position or name."""
+        if method not in self._roles:
+            fn = self.prog.func(f"{ACTOR}.{method}")
+            sig = Signature(fn)
+            want = ["key", "request"] + (["task"] if method == self.handler else [])
+            r = assign_roles(sig.names, param_uses(self.walk(fn).paths, sig.names, (PROC, PEND)), want)
+            if r is None:
+                raise AnalysisError(f"{fn.qual}: parameters for ({', '.join(want)}) not found")
+            self._roles[method] = (sig, r)
+        return self._roles[method]
 
 
 def _walk(prog: Program, fn: FuncInfo, ctx: Ctx) -> Walk:
-    w = Walk(prog, fn, anchors=ctx.anchors)
-    ctx.unfollowed |= w.ex.unfollowed
-    ctx.read_in |= w.spliced | w.ex.followed
-    return w
+    return ctx.walk(fn)
 
 
 def _agg(run: Run, rule: str, fn: FuncInfo, what: str, msg: str, bad: list[tuple[Path, Any]], **kw: Any) -> None:
@@ -324,12 +345,10 @@ def _agg(run: Run, rule: str, fn: FuncInfo, what: str, msg: str, bad: list[tuple
 # --------------------------------------------------------------------------------------------- REG
 def check_reg(run: Run, prog: Program, ctx: Ctx) -> None:  # noqa: C901
     fn = prog.func(f"{ACTOR}.{ctx.starter}")
-    handler = prog.func(f"{ACTOR}.{ctx.handler}")
     run.analysed(fn.qual)
-    if len(fn.params) < 3 or len(handler.params) < 4:
-        raise AnalysisError(f"{fn.qual}: signature (self, key, request) / (self, key, request, task) not found")
-    key, req = fn.params[1], fn.params[2]
-    hp = handler.params[1:4]
+    _ssig, sr = ctx.roles(ctx.starter)
+    hsig, hr = ctx.roles(ctx.handler)
+    key, req = sr["key"], sr["request"]
     w = _walk(prog, fn, ctx)
     run.check(not fn.is_async and not contains_await(w.tree), "C14.REG", fn.qual, "synchronous",
               "_process_request is not synchronous: registering the task is no longer atomic with "
@@ -383,7 +402,7 @@ def check_reg(run: Run, prog: Program, ctx: Ctx) -> None:  # noqa: C901
             bad["cb"].append((p, "task.add_done_callback(... _handle_task_completion(req_id, request, t))"))
             continue
         arg = _cb_arg(mine[0].node)
-        if arg is None or not _callback_ok(arg, nested, ctx.handler, hp, key, req, fn.qual):
+        if arg is None or not _callback_ok(arg, nested, ctx.handler, hsig, hr, key, req, fn.qual):
             bad["cbarg"].append((p, "task.add_done_callback(... _handle_task_completion(req_id, request, t))"))
     # every path hands the bare task back: attaching the callback is the callers' obligation (check_attach);
     # some do and some do not: the ones that do not are paths without a callback
@@ -410,10 +429,9 @@ def check_reg(run: Run, prog: Program, ctx: Ctx) -> None:  # noqa: C901
 # --------------------------------------------------------------------------------------------- _run
 def check_run(run: Run, prog: Program, ctx: Ctx) -> None:  # noqa: C901
     fn = prog.func(f"{ACTOR}._run")
-    proc = prog.func(f"{ACTOR}.{ctx.starter}")
     run.analysed(fn.qual)
     w = _walk(prog, fn, ctx)
-    pp = proc.params[1:3]
+    ssig, sr = ctx.roles(ctx.starter)
     loops: dict[int, tuple[ast.AsyncFor, Path]] = {}
     for p in w.paths:
         for e in p.effects:
@@ -482,7 +500,7 @@ def check_run(run: Run, prog: Program, ctx: Ctx) -> None:  # noqa: C901
             if not (e.node.func.attr in ("get", "keys") and u(e.node.func.value) == PEND):  # type: ignore[attr-defined]
                 bad["pendcall"].append((p, e.node))
         for e in starts:
-            if _bound(e.node, pp) != {pp[0]: K, pp[1]: rv}:
+            if ssig.bind(e.node) != {sr["key"]: K, sr["request"]: rv}:
                 bad["args"].append((p, e.node))
         if present is True:
             n_busy += 1
@@ -550,12 +568,9 @@ def check_run(run: Run, prog: Program, ctx: Ctx) -> None:  # noqa: C901
 # --------------------------------------------------------------------------------------------- handler
 def check_handler(run: Run, prog: Program, ctx: Ctx) -> None:  # noqa: C901
     fn = prog.func(f"{ACTOR}.{ctx.handler}")
-    proc = prog.func(f"{ACTOR}.{ctx.starter}")
     run.analysed(fn.qual)
-    if len(fn.params) < 4:
-        raise AnalysisError(f"{fn.qual}: signature (self, key, request, task) not found")
-    key = fn.params[1]
-    pp = proc.params[1:3]
+    ssig, sr = ctx.roles(ctx.starter)
+    key = ctx.roles(ctx.handler)[1]["key"]
     w = _walk(prog, fn, ctx)
     run.check(not fn.is_async and not contains_await(w.tree), "C14.NEXT", fn.qual, "synchronous",
               "the completion handler is not synchronous", node=fn.node, file=fn.file)
@@ -605,10 +620,11 @@ def check_handler(run: Run, prog: Program, ctx: Ctx) -> None:  # noqa: C901
             n_yes += 1
             ok = len(starts) == 1
             if ok:
-                a = _bound(starts[0].node, pp)
-                consumed = a is not None and set(a) == set(pp) and a[pp[0]] == key and (
-                    _nospace(a[pp[1]]) in (_nospace(f"{PEND}.pop({key})"), _nospace(f"{PEND}.pop({key}, None)"))
-                    or (_nospace(a[pp[1]]) == _nospace(f"{PEND}[{key}]")
+                a = ssig.bind(starts[0].node)
+                kp, rp = sr["key"], sr["request"]
+                consumed = a is not None and set(a) == {kp, rp} and a[kp] == key and (
+                    _nospace(a[rp]) in (_nospace(f"{PEND}.pop({key})"), _nospace(f"{PEND}.pop({key}, None)"))
+                    or (_nospace(a[rp]) == _nospace(f"{PEND}[{key}]")
                         and any(u(e.node) == f"{PEND}[{key}]" for e in _dels(p, "_pending_requests"))))
                 ok = bool(consumed)
             if not ok:
@@ -856,8 +872,16 @@ def structural_controls(prog: Program) -> list[tuple[str, str, str, str, str]]: 
     src = mod.source
     cls = prog.cls(ACTOR)
     out: list[tuple[str, str, str, str, str]] = []
+    ssig = hsig = None
+    sr: dict[str, str] = {}
+    hr: dict[str, str] = {}
     try:
-        starter, handler = bind_roles(prog)
+        ctx = Ctx(prog)
+        starter, handler = ctx.starter, ctx.handler
+        try:
+            (ssig, sr), (hsig, hr) = ctx.roles(starter), ctx.roles(handler)
+        except AnalysisError:
+            ssig = hsig = None      # the controls that need the parameters' roles are not built
     except AnalysisError:
         starter, handler = STARTER_HINT, HANDLER_HINT
 
@@ -918,7 +942,13 @@ def structural_controls(prog: Program) -> list[tuple[str, str, str, str, str]]: 
     for m, c, args in completion_closures(prog, handler):
         if m.cls is not cls:
             continue
-        reads = sorted(closure_reads(c, args[:1] if args else None) - {"self", "cls"})
+        # what flows into the handler's key parameter (else: everything the callback reads)
+        key_arg: list[ast.AST] | None = None
+        if hsig is not None and isinstance(c, ast.Lambda) and _is_self_call(c.body, handler):
+            bound = hsig.bind_nodes(c.body)
+            key_arg = [bound[hr["key"]]] if bound is not None and hr["key"] in bound else None
+        reads = sorted(closure_reads(c, key_arg if key_arg is not None else args[:1] if args else None)
+                       - {"self", "cls"})
         st = stmt_of(m.node, c)
         if reads and st is not None and not isinstance(st, (ast.Return, ast.Raise)):
             rebinds.append((st, f"{seg(src, st)}\n{ind(st)}{reads[0]} = frozenset()"))
@@ -927,21 +957,36 @@ def structural_controls(prog: Program) -> list[tuple[str, str, str, str, str]]: 
     # in the request loop those are re-bound with every request
     s_fn = cls.methods.get(starter)
     h_fn = cls.methods.get(handler)
-    if s_fn is not None and h_fn is not None and len(s_fn.params) >= 3 and s_fn.node.body \
+    if s_fn is not None and h_fn is not None and ssig is not None and hsig is not None and s_fn.node.body \
             and not isinstance(s_fn.node.body[-1], (ast.Return, ast.Raise)):
-        kp, rp = s_fn.params[1:3]
-        own_cb = [n for n in s_fn.node.body if isinstance(n, ast.Expr) and isinstance(n.value, ast.Call)
-                  and isinstance(n.value.func, ast.Attribute) and n.value.func.attr == "add_done_callback"
-                  and isinstance(n.value.func.value, ast.Name) and len(n.value.args) == 1
-                  and isinstance(n.value.args[0], ast.Lambda) and isinstance(n.value.args[0].body, ast.Call)
-                  and _is_self_call(n.value.args[0].body, handler) and not n.value.args[0].body.keywords
-                  and [u(a) for a in n.value.args[0].body.args[:2]] == [kp, rp]]
+        kp, rp = sr["key"], sr["request"]
+
+        def own(n: ast.AST) -> bool:
+            """`<task>.add_done_callback(lambda t: self.<handler>(key=<key param>, request=<request param>, task=t))`
+            in whatever spelling of the arguments."""
+            if not (isinstance(n, ast.Expr) and isinstance(n.value, ast.Call) and isinstance(n.value.func, ast.Attribute)
+                    and n.value.func.attr == "add_done_callback" and isinstance(n.value.func.value, ast.Name)
+                    and len(n.value.args) == 1 and not n.value.keywords and isinstance(n.value.args[0], ast.Lambda)):
+                return False
+            lam = n.value.args[0]
+            la = lam.args
+            if len(la.args) != 1 or la.posonlyargs or la.kwonlyargs or la.vararg or la.kwarg or la.defaults:
+                return False
+            return _is_self_call(lam.body, handler) and hsig.bind(lam.body) == {
+                hr["key"]: kp, hr["request"]: rp, hr["task"]: la.args[0].arg}
+
+        def site_args(n: ast.AST) -> tuple[ast.AST, ast.AST] | None:
+            b = ssig.bind_nodes(n)
+            return (b[kp], b[rp]) if b is not None and set(b) == {kp, rp} else None
+
+        own_cb = [n for n in s_fn.node.body if own(n)]
         sites = [(m, n) for m, n in every if m.name != starter and isinstance(n, ast.Expr)
-                 and _is_self_call(n.value, starter) and len(n.value.args) == 2 and not n.value.keywords]  # type: ignore[attr-defined]
+                 and _is_self_call(n.value, starter) and site_args(n.value) is not None]
 
         def in_loop_over(m: FuncInfo, st: ast.stmt) -> bool:
             """Both arguments are locals the enclosing loop of the same function binds anew."""
-            a = st.value.args  # type: ignore[attr-defined]
+            a = site_args(st.value)  # type: ignore[attr-defined]
+            assert a is not None
             if not all(isinstance(x, ast.Name) for x in a):
                 return False
             for lp in walk_no_nested(m.node):
@@ -957,13 +1002,17 @@ def structural_controls(prog: Program) -> list[tuple[str, str, str, str, str]]: 
             edits: list[tuple[ast.AST, str]] = [(own_cb[0], "pass")] if own_cb[0] is not last else []
             edits.append((last, (f"{seg(src, last)}" if own_cb[0] is not last else "pass") + f"\n{ind(last)}return {task_name}"))
             for m, n in sites:
-                a0, a1 = (seg(src, x) for x in n.value.args)  # type: ignore[attr-defined]
+                nodes = site_args(n.value)  # type: ignore[attr-defined]
+                assert nodes is not None
+                a0, a1 = (seg(src, x) for x in nodes)
                 pre = ""
-                if not all(isinstance(x, ast.Name) for x in n.value.args):  # type: ignore[attr-defined]
+                if not all(isinstance(x, ast.Name) for x in nodes):
                     pre = f"c14_key = {a0}\n{ind(n)}c14_request = {a1}\n{ind(n)}"
                     a0, a1 = "c14_key", "c14_request"
-                edits.append((n, f"{pre}self.{starter}({a0}, {a1}).add_done_callback(\n{ind(n)}    "
-                                 f"lambda c14_t: self.{handler}({a0}, {a1}, c14_t))"))
+                start = ssig.render({kp: a0, rp: a1})
+                done = hsig.render({hr["key"]: a0, hr["request"]: a1, hr["task"]: "c14_t"})
+                edits.append((n, f"{pre}self.{starter}({start}).add_done_callback(\n{ind(n)}    "
+                                 f"lambda c14_t: self.{handler}({done}))"))
             add("callback attached by the callers, closing over the request loop's variables", edits, "C14.BIND")
     pend_w = [n for m, n in every if isinstance(n, ast.Assign) and len(n.targets) == 1
               and sub_of(n.targets[0], "_pending_requests")]
@@ -985,7 +1034,12 @@ def structural_controls(prog: Program) -> list[tuple[str, str, str, str, str]]: 
     clears = [n for m, n in every if (isinstance(n, ast.Delete) and any(sub_of(t, "_processing_tasks") for t in n.targets))
               or (isinstance(n, ast.Expr) and isinstance(n.value, ast.Call) and isinstance(n.value.func, ast.Attribute)
                   and n.value.func.attr == "pop" and u(n.value.func.value) == PROC)]
-    add("in-flight marker never cleared", [(s, "pass") for s in clears], "C14.NEXT")
+    # ... or cleared by a pop whose value is looked at (`if d.pop(k, None) is None: ...`): look without removing
+    held = {id(s.value) for s in clears if isinstance(s, ast.Expr)}
+    peeks = [(n.func, f"{PROC}.get") for m, n in every if isinstance(n, ast.Call) and id(n) not in held
+             and isinstance(n.func, ast.Attribute) and n.func.attr == "pop" and u(n.func.value) == PROC
+             and len(n.args) == 2 and not n.keywords]
+    add("in-flight marker never cleared", [(s, "pass") for s in clears] + peeks, "C14.NEXT")
     keys = [n for m, n in every if m.name not in (handler, starter, "__init__")
             and isinstance(n, ast.Call) and u(n.func) == "frozenset" and len(n.args) == 1
             and isinstance(n.args[0], ast.Attribute) and n.args[0].attr == "component_ids"]
